@@ -43,3 +43,66 @@ package client
 //@   ensures isnil(ret1) ==> (cBrutalCalls == old(cBrutalCalls) + 1) == (!respRxAuto && clientTx(respRx, c.config.BandwidthConfig.MaxTx) > 0)
 //@   ensures !isnil(ret1) ==> cBrutalCalls == old(cBrutalCalls) && cConfiguredCalls == old(cConfiguredCalls) && ret0 == nil
 //@   modifies c.pktConn, c.tr, c.conn, c.udpSM, ghosts
+
+// ---------------------------------------------------------------------------
+// The reconnecting client (C16), as a sequential object (its methods run under rc.m; what
+// other goroutines do between clientDo's two critical sections is not modelled).
+// live[rc][c]: client c was obtained from NewClient by rc and has not been closed since.
+// Invariant at every method exit: the only live client is the one rc refers to - a
+// superseded or dropped client has been closed.
+//@ ghost var live (Array Int (Array Int Bool))
+//@ hook after call NewClient(cfg) (c, info, err) in (*reconnectableClientImpl).reconnect
+//@   when isnil(err)
+//@   update live = upd(live, rc, payload(c), true)
+//@ hook call Client.Close(c) in (*reconnectableClientImpl).reconnect | (*reconnectableClientImpl).clientDo | (*reconnectableClientImpl).Close
+//@   update live = upd(live, rc, payload(c), false)
+//@ spec func liveInv(rc) = forall(c, selBool(live, rc, c) ==> !isnil(rc.client) && c == payload(rc.client))
+//@ objinv reconnectableClientImpl: liveInv(this)
+
+//@ func NewClient
+//@   props C16
+//@   trusted
+//@   ensures isnil(ret2) ==> !isnil(ret0) && !selBool(old(live), arg0, payload(ret0))
+//@   ensures !isnil(ret2) ==> isnil(ret0)
+//@ iface Client.Close(c) (err)
+//@ fnfield reconnectableClientImpl.configFunc(this) (cfg, err)
+//@ fnfield reconnectableClientImpl.connectedFunc(this, c, info, n)
+//@ fnfield clientDo.f(c) (ret, err)
+
+//@ func (*reconnectableClientImpl).reconnect
+//@   props C16
+//@   nonil
+//@   requires rc.configFunc != nil
+//@   ensures isnil(ret) ==> !isnil(rc.client)
+//@   ensures isnil(ret) && old(rc.count) < 9223372036854775807 ==> rc.count == old(rc.count) + 1
+//@   ensures isnil(ret) ==> selBool(live, rc, payload(rc.client))
+//@   ensures !isnil(ret) ==> rc.count == old(rc.count) && forall(c, !selBool(live, rc, c))
+//@   ensures rc.closed == old(rc.closed)
+//@   modifies rc.client, rc.count, live
+
+//@ func (*reconnectableClientImpl).clientDo
+//@   props C16
+//@   nonil
+//@   requires rc.configFunc != nil && f != nil
+//@   ensures old(rc.closed) ==> !isnil(ret1) && rc.count == old(rc.count) && rc.client == old(rc.client)
+//@   ensures rc.closed == old(rc.closed)
+//@   modifies rc.client, rc.count, live
+
+//@ func (*reconnectableClientImpl).Close
+//@   props C16
+//@   nonil
+//@   ensures rc.closed && forall(c, !selBool(live, rc, c)) && rc.count == old(rc.count)
+//@   modifies rc.closed, live
+
+// every (re)connection evaluates the configuration function afresh and connects with its result
+//@ ghost var cfgCalls Int
+//@ ghost var lastCfg Int
+//@ hook after call reconnectableClientImpl.configFunc(this) (cfg, err) in (*reconnectableClientImpl).reconnect
+//@   update cfgCalls = cfgCalls + 1
+//@   update lastCfg = cfg
+//@ guard call NewClient(cfg) in (*reconnectableClientImpl).reconnect
+//@   props C16
+//@   requires cfgCalls == old(cfgCalls) + 1 && cfg == lastCfg
+//@ structural C16: refs NewClient in (*reconnectableClientImpl).reconnect
+//@ structural C16: stores reconnectableClientImpl.client in (*reconnectableClientImpl).reconnect | (*reconnectableClientImpl).clientDo
+//@ structural C16: stores reconnectableClientImpl.closed in (*reconnectableClientImpl).Close value true
